@@ -249,7 +249,7 @@ def main(prop, title, rules, level, explanation, assumptions, trusted_base=None,
         # what was rewritten on the facts before the rules read them (nothing on the reference tree): rules/inline.py, expand.py,
         # pipeline.py, unroll.py
         "normalisations": [{"config": m["config"], "helpers_expanded": m.get("helpers_expanded", []), "renamed_anchors": m.get("renamed_anchors", []),
-                            "renamed_fields": m.get("renamed_fields", []), "loops_unrolled": m.get("loops_unrolled", []),
+                            "renamed_fields": m.get("renamed_fields", []), "renamed_types": m.get("renamed_types", []), "loops_unrolled": m.get("loops_unrolled", []),
                             "combinators_expanded": m.get("combinators_expanded", []), "pipelines_lowered": m.get("pipelines_lowered", [])} for m in metas],
         "notes": [i.to_json() for i in insts if i.note],
         "known_findings_matched": [i.key for i in listed],
